@@ -163,6 +163,9 @@ func judge(w *sup.Worker, c Case) (string, string) {
 		if strings.Contains(crash.Text+crash.Log, "stack") && hasShorthandSelfRef(c.Desc) && ev.Known("shorthand-selfref") {
 			return "", "known"
 		}
+		if strings.Contains(crash.Text+crash.Log, "stack") && hasDefaultedLoop(c.Desc) && ev.Known("default-selfref") {
+			return "", "known"
+		}
 		return fmt.Sprintf("loading / using a received description killed the process or hung (%s) [mutation: %s]\n%s\ndescription: %s", crash, c.Mutation, firstLines(crash.Log, 25), desc), crash.Kind
 	}
 	var r result
@@ -235,6 +238,66 @@ func hasShorthandSelfRef(v val.V) bool {
 				return true
 			}
 			at = n
+		}
+	}
+	return false
+}
+
+// hasDefaultedLoop recognises the recorded known finding default-selfref in a description: object-typed properties
+// that declare a default and lead from an object back to itself (every instance takes the default, which is again an
+// instance).
+func hasDefaultedLoop(v val.V) bool {
+	field := func(m val.V, key string) (val.V, bool) {
+		for i := range m.M {
+			if m.M[i].K.S == key {
+				return m.M[i].V, true
+			}
+		}
+		return val.V{}, false
+	}
+	edges := map[string][]string{}
+	var walk func(v val.V)
+	walk = func(v val.V) {
+		if strings.HasPrefix(v.T, "map") {
+			id, hasID := field(v, "id")
+			props, hasProps := field(v, "properties")
+			if hasID && hasProps && id.T == "string" && strings.HasPrefix(props.T, "map") {
+				for _, pe := range props.M {
+					if _, hasDefault := field(pe.V, "default"); !hasDefault {
+						continue
+					}
+					if t, ok := field(pe.V, "type"); ok {
+						tid, _ := field(t, "type_id")
+						target, _ := field(t, "id")
+						if (tid.S == "ref" || tid.S == "object") && target.T == "string" {
+							edges[id.S] = append(edges[id.S], target.S)
+						}
+					}
+				}
+			}
+			for i := range v.M {
+				walk(v.M[i].V)
+			}
+		}
+		for i := range v.L {
+			walk(v.L[i])
+		}
+	}
+	walk(v)
+	for start := range edges {
+		seen := map[string]bool{}
+		stack := append([]string(nil), edges[start]...)
+		for len(stack) > 0 {
+			x := stack[len(stack)-1]
+			stack = stack[:len(stack)-1]
+			if x == start {
+				return true
+			}
+			if seen[x] {
+				continue
+			}
+			seen[x] = true
+			stack = append(stack, edges[x]...)
 		}
 	}
 	return false
